@@ -71,6 +71,8 @@ Ops(b) ==
       [] b = "takesendorig" -> [ops |-> <<"take", "send">>, cp |-> 0, ret |-> FALSE]
       [] b = "mutate"     -> [ops |-> <<>>,               cp |-> 0, ret |-> FALSE]
       [] b = "none"       -> [ops |-> <<>>,               cp |-> 0, ret |-> FALSE]
+      \* a subscriber whose predicate raises: its handler never runs, nothing else is disturbed
+      [] b = "predraise"  -> [ops |-> <<>>,               cp |-> 0, ret |-> FALSE]
 
 RECURSIVE Apply(_, _)
 Apply(ops, t) == IF ops = <<>> THEN t
@@ -102,13 +104,13 @@ PktHook(i) ==
 SessSub ==
     /\ pc = <<"sess">>
     /\ Run(cfg.sess)
-    /\ invoked' = IF cfg.sess = "none" THEN invoked ELSE invoked \cup {<<"sess", 0>>}
+    /\ invoked' = IF cfg.sess \in {"none", "predraise"} THEN invoked ELSE invoked \cup {<<"sess", 0>>}
     /\ pc' = <<"reg">>
     /\ UNCHANGED <<cfg, handled, logged>>
 RegSub ==
     /\ pc = <<"reg">>
     /\ Run(cfg.reg)
-    /\ invoked' = IF cfg.reg = "none" THEN invoked ELSE invoked \cup {<<"reg", 0>>}
+    /\ invoked' = IF cfg.reg \in {"none", "predraise"} THEN invoked ELSE invoked \cup {<<"reg", 0>>}
     /\ pc' = IF cfg.kind = "cmdchat" THEN <<"cmd">> ELSE <<"udp", 1>>
     /\ UNCHANGED <<cfg, handled, logged>>
 
